@@ -15,7 +15,8 @@ from . import carvecommon as K
 from . import dbcommon as C
 
 ID = "C09"
-LEAN_MODULES = ["SqliteDissect.Properties.C09"]
+LEAN_MODULES = ["SqliteDissect.Properties.C09", "SqliteDissect.Properties.GenFun"]
+TRANSLATORS = list(P8.TRANSLATORS)
 RULE = ("deletion grid: page size x column shape (integer/text/real, rowid alias first, text first with equal and with "
         "varying lengths, constant-width first column, single column, blob first, rowids above 127) x position in the page "
         "(first, middle, last inserted, a run, all rows) x residue location (freeblock, merged unallocated area, emptied "
@@ -59,7 +60,7 @@ def shape_rows(shape, i, r):
     if shape == "bool_text":                      # first column 0/1: serial types 8 and 9, both of size 0
         return (i % 2, "flag-%d" % i)
     if shape == "flags":                          # every column 0/1 (serial types 8/9): the record body is empty
-        return tuple(((i * 37) >> k) & 1 for k in range(6))
+        return (1,) + tuple(((i * 37) >> k) & 1 for k in range(5))      # (first column the same in every row)
     if shape == "nullable":
         return (None if i % 3 == 0 else 100 + i, "n%d" % i, None if i % 4 == 0 else "z" * (i % 9))
     raise KeyError(shape)
